@@ -67,7 +67,7 @@ Qed.
 
 Theorem sync_eval_flag fuel chain f s : sync s -> sync (snd (eval_flag re_ok re_match o E P c fuel chain f s)).
 Proof.
-  apply (keeps_eval_flag re_ok re_match o E P c sync).
+  apply (keeps_eval_flag re_ok re_match o E P c sync walk_obs); try (intros; reflexivity).
   - intros x s0 Hx H. apply sync_walk; assumption.
   - intros k e s0 H. apply sync_log. exact H.
   - intros sg s0 H. apply sync_early. exact H.
